@@ -119,7 +119,8 @@ class Check(PropertyCheck):
                   "decoder; no Skip, no masked field in the tie. Lenient branches (each pinned by known_selftest with an "
                   "observation just outside it): L1 a client frame the reference decoder cannot read counts as a query with its "
                   "header id and unknown question section; L2 a message to the client is exempt from the id/question clause iff it "
-                  "renders exactly (id included) as a response an addon action of the case sets; L3 a crash is excused iff the "
+                  "renders exactly (id included) as the response set by the addon action applied at a hook of this very message's "
+                  "handling (not: by any action anywhere in the case — that let seed c27-4's stale addon response pass); L3 a crash is excused iff the "
                   "response about to be sent was set by an action with id > 65535; L4 a zero length prefix need not close iff an "
                   "earlier event already ended the layer; L5 question sections with a non-plain label are not compared between "
                   "the wire and the text rendering; L6 events the world did not deliver are not counted as sent. Bytes sent to "
@@ -130,7 +131,9 @@ class Check(PropertyCheck):
             "retransmitted and re-used ids, connect failures, no upstream, addon actions in every hook, closes at any point, "
             "raw bytes; TCP streams re-segmented at random (frames cut, neighbours merged, other direction interleaved) and "
             "streams of valid frames followed by zero-length / over-long / undecodable frames with EVERY 2-split, "
-            "plus stray upstream frames (duplicate, unknown id, other question) cut in two around a new client query. Every case "
+            "plus stray upstream frames (duplicate, unknown id, other question) cut in two around a new client query, plus the id of a "
+            "query used again after each way its flow can end (upstream reply, addon reply in dns_request / in dns_response, "
+            "addon clear, addon error, no upstream, connect failure, still pending) x same / other question x UDP / TCP. Every case "
             "is additionally re-run merged, byte-by-byte, with deferred hooks and (where an upstream segment completes no frame) "
             "with that segment and the following client segment exchanged. distinct = distinct case; non-trivial = at "
             "least one dns hook fired.")
@@ -189,6 +192,20 @@ class Check(PropertyCheck):
             ("L2 outside: the addon's response under another id", udp([["c", hx(q1)]], ["r=" + hx(X)]),
              ob([[f"hook dns_request {rq(1, A)} none 0", f"hook dns_response {rq(1, A)} {rs(1, A)} 0", "send client " + hx(mk_reply(2, A, compress=False))]],
                 [["r=" + hx(X), "p"]]), "answers none of its queries"),
+            ("L2 outside (seed c27-4): the response an addon gave the FIRST query with id 1 is reported and sent again for a later query with id 1",
+             udp([["c", hx(q1)], ["c", hx(mk_query(1, B, 28))]], ["r=" + hx(X)]),
+             ob([[f"hook dns_request {rq(1, A)} none 0", f"hook dns_response {rq(1, A)} {rs(1, A)} 0", "send client " + hx(X)],
+                 [f"hook dns_request {rq(1, B, t=28)} {rs(1, A)} 0", f"hook dns_response {rq(1, B, t=28)} {rs(1, A)} 0", "send client " + hx(X)]],
+                [["r=" + hx(X), "p"], ["p", "p"]]), "pairs query"),
+            ("L2 outside: an addon response (id 9) made for an earlier message is sent again later",
+             udp([["c", hx(q1)], ["c", hx(mk_query(1, B, 28))]], ["r=" + hx(mk_reply(9, B, compress=False))]),
+             ob([[f"hook dns_request {rq(1, A)} none 0", f"hook dns_response {rq(1, A)} {rs(9, B)} 0", "send client " + hx(mk_reply(9, B, compress=False))],
+                 [f"hook dns_request {rq(1, B, t=28)} none 0", "open ok", "send server " + hx(mk_query(1, B, 28)), "send client " + hx(mk_reply(9, B, compress=False))]],
+                [["r=" + hx(mk_reply(9, B, compress=False)), "p"], ["p"]]), "answers none of its queries"),
+            ("L2 inside: response set in dns_request of this very message, other id and question",
+             udp([["c", hx(q1)]], ["r=" + hx(mk_reply(9, B, compress=False))]),
+             ob([[f"hook dns_request {rq(1, A)} none 0", f"hook dns_response {rq(1, A)} {rs(9, B)} 0", "send client " + hx(mk_reply(9, B, compress=False))]],
+                [["r=" + hx(mk_reply(9, B, compress=False)), "p"]]), None),
             ("L4 outside: zero length prefix, only the other side closed in the same event", tcp([["c", hx(frame(q1) + b"\x00\x00")]]),
              ob([[f"hook dns_request {rq(1, A)} none 0", "open ok", "send server " + hx(frame(q1)), "close server"]]), "zero length prefix"),
             ("L4 inside: the layer had ended before", tcp([["c", hx(frame(q1))], ["sc"], ["c", "0000"]]),
@@ -340,11 +357,50 @@ class Check(PropertyCheck):
         if rng.chance(0.2): evs.pop(1)
         return {"transport": "tcp", "upstream": True, "events": evs, "acts": self._acts(rng, rng.randint(0, 3), False), "conns": ""}
 
+    ENDINGS = ["upstream", "addon-request", "addon-response", "addon-clear", "addon-error", "no-upstream", "connect-fail", "pending"]
+
+    def _reuse_case(self, rng, ending=None, same=None, tr=None):
+        """the id of a query is used again after each way its flow can end (or while it is pending), with the same or
+        another question; then the upstream answers the new query and (sometimes) repeats its answer to the old one"""
+        ending = ending or rng.pick(self.ENDINGS)
+        same = rng.chance(0.35) if same is None else same
+        tr = tr or rng.pick(["udp", "tcp"])
+        i = rng.pick([1, 5, 7])
+        n1 = rng.pick(NAMES); t1 = rng.pick(QTYPES)
+        n2, t2 = (n1, t1) if same else (rng.pick([n for n in NAMES if n != n1]), rng.pick(QTYPES))
+        q1, q2 = mk_query(i, n1, t1), mk_query(i, n2, t2, rd=rng.randint(0, 1))
+        r1, r2 = mk_reply(i, n1, t1), mk_reply(i, n2, t2, n_answers=rng.randint(0, 2))
+        addon = "r=" + hx(mk_reply(i, n1, t1, n_answers=2, compress=False))
+        evs, acts, conns, up = [("c", q1)], [], "", True
+        if ending == "upstream": evs.append(("s", r1)); acts = ["p", "p"]
+        elif ending == "addon-request": acts = [addon, "p"]
+        elif ending == "addon-response": evs.append(("s", r1)); acts = ["p", addon]
+        elif ending == "addon-clear": evs.append(("s", r1)); acts = ["p", "x"]
+        elif ending == "addon-error": acts = ["e", "p"]
+        elif ending == "no-upstream": up = False; acts = ["p", "p"]
+        elif ending == "connect-fail": conns = "0"; acts = ["p", "p"]
+        else: acts = ["p"]
+        evs.append(("c", q2))
+        if up and ending not in ("connect-fail",):
+            tail = [("s", r2)]
+            if rng.chance(0.4): tail.insert(rng.randint(0, 1), ("s", r1))          # late / repeated answer to the old query
+            evs += tail
+        if rng.chance(0.3): evs.append(("c", mk_query(i, n1, t1)))                 # and once more
+        acts += self._acts(rng, rng.randint(0, 2), False)
+        return {"transport": tr, "upstream": up, "events": self._segment(rng, tr, evs) if rng.chance(0.5) else
+                [[k, hx(frame(b) if tr == "tcp" else b)] for k, b in evs], "acts": acts, "conns": conns}
+
     def generate(self, rng, tier):
         for c in self._split_cases(None):
             yield c
+        for ending in self.ENDINGS:
+            for same in (False, True):
+                for tr in ("udp", "tcp"):
+                    yield self._reuse_case(rng, ending, same, tr)
         while True:
-            if rng.chance(0.07):
+            if rng.chance(0.10):
+                yield self._reuse_case(rng)
+            elif rng.chance(0.07):
                 yield self._stray_case(rng)
             elif rng.chance(0.08):
                 cs = list(self._split_cases(rng))
@@ -516,8 +572,9 @@ class Check(PropertyCheck):
     # Lenient branches (each exercised by known_selftest with an observation just outside it):
     #  L1 a client frame the reference decoder cannot read counts as a query with its header id and UNKNOWN question section
     #     (the codec may read more than the reference: C25/C26's subject) — only the question comparison is waived, only for that id;
-    #  L2 a message sent to the client is exempt from the id/question clause iff it renders exactly (id included) as a response
-    #     some addon action of the case sets;
+    #  L2 a message sent to the client (a response reported at dns_response) is exempt from the id/question clause iff it renders
+    #     exactly (id included) as the response set by the addon action applied at a hook of THIS message's handling (the
+    #     dns_response hook directly in front of the send, or the dns_request hook directly in front of that);
     #  L3 a crash is excused iff the response about to be sent was set by an action `r=…@<id > 65535>` (the addon's fault);
     #  L4 a zero length prefix need not close its connection iff an EARLIER event already ended the layer (close / crash);
     #  L5 a question section with a label that is not a plain host-name label is not compared between the two renderings;
@@ -544,28 +601,31 @@ class Check(PropertyCheck):
         h_, _, i_ = a[2:].partition("@")
         return int(i_) if i_ else None
 
-    def _addon_renders(self, case):
-        """reference renderings (id included) of the responses the addon script sets (L2)"""
-        out = set()
-        for a in case["acts"]:
-            if a.startswith("r="):
-                r = ref_parts(unhx(a[2:].partition("@")[0]))
-                if r is not None:
-                    s = r[3]; i = self._act_id(a)
-                    if i is not None: s = str(i) + s[s.index(","):]
-                    out.add(s)
-        return out
+    @staticmethod
+    def _response_setter(items, k, acts):
+        """L2: the action `r=…` that put the response into the flow which items[k] reports (hook dns_response: the response as
+        the hook sees it) or sends (send client) — looking only at the hooks of THIS message's handling, i.e. the hooks
+        directly in front of items[k]; None when the response does not come from an addon action applied there
+        (an upstream reply, a SERVFAIL, or — the point of seed c27-4 — a response some earlier flow was given)"""
+        hooks = [(j, it.split(" ")[1]) for j, it in enumerate(items[:k]) if it.startswith("hook ")]
+        if len(acts) < len(hooks): return None
+        at = lambda n: (hooks[n][0], hooks[n][1], acts[len(hooks) + n]) if -len(hooks) <= n < 0 else (None, None, None)
+        if items[k].startswith("hook dns_response"):
+            j1, h1, a1 = at(-1)
+            return a1 if j1 == k - 1 and h1 == "dns_request" and a1.startswith("r=") else None
+        j2, h2, a2 = at(-1)
+        if j2 != k - 1 or h2 != "dns_response": return None
+        if a2.startswith("r="): return a2
+        if a2 == "x": return None
+        j1, h1, a1 = at(-2)
+        return a1 if j1 == k - 2 and h1 == "dns_request" and a1.startswith("r=") else None
 
-    def _addon_pairs(self, case):
-        """(id, question section in text rendering) of the responses the addon script sets"""
-        out = set()
-        for a in case["acts"]:
-            if a.startswith("r="):
-                r = ref_parts(unhx(a[2:].partition("@")[0]))
-                if r is not None:
-                    i = self._act_id(a)
-                    out.add((r[0] if i is None else i, qs_text(r[2])))
-        return out
+    def _act_render(self, a):
+        r = ref_parts(unhx(a[2:].partition("@")[0]))
+        if r is None: return None, None
+        i = self._act_id(a)
+        full = r[3] if i is None else str(i) + r[3][r[3].index(","):]
+        return full, (r[0] if i is None else i, qs_text(r[2]))
 
     @staticmethod
     def _crash_excused(items, k, acts):
@@ -584,7 +644,6 @@ class Check(PropertyCheck):
     def oracle(self, case, obs):
         fails = []
         tcp = case["transport"] == "tcp"
-        addon, addon_pairs = self._addon_renders(case), self._addon_pairs(case)
         all_q = self._client_queries(case, len(case["events"]), obs["delivered"])
         n_req = 0
         for ei, items in enumerate(obs["given"]):
@@ -608,7 +667,8 @@ class Check(PropertyCheck):
                         n_req += 1
                     if p[1] == "dns_response":
                         if resp is None: fails.append(f"event {ei}: dns_response fired for a flow without response")
-                        elif (resp[0], resp[1]) not in addon_pairs and (resp[0] != req[0] or resp[1] != req[1]):
+                        elif (resp[0] != req[0] or resp[1] != req[1]) and not (
+                                (st := self._response_setter(items, k, obs["acts_at"][ei])) and self._act_render(st)[1] == (resp[0], resp[1])):
                             fails.append(f"event {ei}: dns_response flow pairs query id={req[0]} q={req[1]} with a response id={resp[0]} q={resp[1]}")
                     if p[1] == "dns_error":
                         # "including the SERVFAIL mitmproxy synthesises ..., which also keeps the opcode and recursion-desired flag"
@@ -643,7 +703,8 @@ class Check(PropertyCheck):
                     r = ref_parts(w) if w is not None else None
                     if r is None:
                         fails.append(f"event {ei}: bytes sent to the client are not one well-formed DNS message: {p[2][:80]}"); continue
-                    if r[3] in addon: continue                                                       # L2
+                    st = self._response_setter(items, k, obs["acts_at"][ei])
+                    if st and self._act_render(st)[0] == r[3]: continue                              # L2
                     if not any(q["id"] == r[0] and q["qs"] in (None, r[2]) for q in sent):           # L1
                         fails.append(f"event {ei}: reply id={r[0]} questions={r[2]} sent to the client answers none of its queries "
                                      f"{[(q['id'], q['qs']) for q in sent[:6]]}")
